@@ -37,7 +37,8 @@ def build_request(req: dict[str, Any], variant: int):
             in_specs.append((1, 4, 5, 3))          # plain shape: the float width follows the precision flag
         else:
             dt = dts if i == 1 else np.float32
-            shp = (("B" if sym else 2), 3)
+            # positions beyond the second get distinguishable shapes (a name bound to the wrong position shows)
+            shp = (("B" if sym else 2), 3 if i < 2 else 3 + (i % 4))
             in_specs.append(jax.ShapeDtypeStruct(shp, dt) if dt != np.float32 else shp)
     kw: dict[str, Any] = {}
     if req["param"]:
@@ -71,8 +72,8 @@ def build_request(req: dict[str, Any], variant: int):
                 y = xs[0]
             if j == 0 and req["outKind"] == "constant":
                 y = jnp.arange(6.0).reshape(2, 3)
-            if j == 1 and req["outKind"] == "duplicate":
-                y = outs[0]
+            if j == nout - 1 and j >= 1 and req["outKind"] == "duplicate":
+                y = outs[j - 1]          # the last two leaves are one value
             if j == 1 and variant % 2 == 1 and req["outKind"] == "computed":
                 y = (y > 0)  # a boolean leaf
             if j == 0 and out_rank4:
@@ -80,7 +81,7 @@ def build_request(req: dict[str, Any], variant: int):
             outs.append(y)
         if nout == 1:
             return outs[0]
-        return {"a": outs[0], "b": (outs[1],)}  # nested result pytree: leaves in key order
+        return {"a": outs[0], "b": tuple(outs[1:])}  # nested result pytree: leaves in key order
 
     if req["inNames"] != "none":
         names = [f"ci_{i}" for i in range(nin)]
